@@ -16,11 +16,14 @@ TReset == /\ Is("Reset")
           /\ st' = "closed" /\ failures' = 0 /\ successes' = 0 /\ hoReq' = 0 /\ sinceFail' = SatF
           /\ res' = "none" /\ act' = "Init" /\ consec' = 0 /\ Consume
 TAsk  == Is("Ask")  /\ Ask  /\ res' = TLog[l].res /\ Projected /\ Consume
+\* a burst of n overlapping Allow() calls, one of them possibly held at the gate between its load of the
+\* state and its transition: the number admitted and the state afterwards are those of n consecutive Asks
+TRace == Is("Race") /\ Race(TLog[l].n) /\ TLog[l].admits = RaceAdmits(TLog[l].n) /\ Projected /\ Consume
 TFail == Is("Fail") /\ Fail /\ Projected /\ Consume
 TSucc == Is("Succ") /\ Succ /\ Projected /\ Consume
 TTick == Is("Tick") /\ Tick(TLog[l].d) /\ Consume
 TraceInit == Init /\ l = 1
-TraceNext == TReset \/ TAsk \/ TFail \/ TSucc \/ TTick
+TraceNext == TReset \/ TAsk \/ TRace \/ TFail \/ TSucc \/ TTick
 TraceSpec == TraceInit /\ [][TraceNext]_tvars
 HW == HWMark(l)
 =============================================================================
